@@ -92,7 +92,8 @@ C09TVerdict(R) ==
   IF ~R.fick.trace.ran THEN "na"
   ELSE IF ~R.fick.trace.ok THEN "trace-raised"
   ELSE IF ~R.fick.trace.ops_ok THEN "trace-opcodes"
-  ELSE IF ~R.fick.trace.same_ast THEN "trace-changed-program" ELSE "ok"
+  ELSE IF ~R.fick.trace.same_ast THEN "trace-changed-program"
+  ELSE IF ~R.fick.trace.prefix_ok THEN "trace-" \o R.fick.trace.prefix_why ELSE "ok"
 
 Finish ==
   LET R == T[tid] IN
